@@ -1,15 +1,19 @@
 // halloc: allocator contracts (C20) on the three real allocators of package mempool.
 //
 // ops:   C kind=<pool|aligned|std> buf=<n> free=<n>     (buf/free: the raw arguments of mempool.New)
-//        M h size            Malloc into handle name h
-//        W h pat             the client fills its whole buffer with pattern pat
-//        A h payload         Append
-//        S h payload         AppendString
-//        R h size            Realloc
-//        F h                 Free
-//        P k n seed          concurrent supporting program: k goroutines, n random ops each, disjoint handles
-//        K lo hi             exact tabulation: fingerprint of alignedIndexes[lo..hi] (the aligned allocator's
-//                            size-class table) against the model's classOf
+//
+//	M h size            Malloc into handle name h
+//	W h pat             the client fills its whole buffer with pattern pat
+//	A h payload         Append
+//	S h payload         AppendString
+//	R h size            Realloc
+//	F h                 Free
+//	G h cap len         the client brings a FOREIGN buffer into play: make([]byte, len, cap) (cap 0: a nil slice), a
+//	                    live buffer the allocator did not hand out, passed to Append / AppendString / Realloc / Free
+//	                    like any other (cap 0, odd caps, caps that are a class size, caps above the thresholds)
+//	P k n seed          concurrent supporting program: k goroutines, n random ops each, disjoint handles
+//	K lo hi             exact tabulation: fingerprint of alignedIndexes[lo..hi] (the aligned allocator's
+//	                    size-class table) against the model's classOf
 //
 // exec annotates each op with the environment's answers it observed (inputs of the model):
 //
@@ -170,6 +174,24 @@ func gen(g *lp.Gen) {
 					if _, ok := live[h]; !ok {
 						break
 					}
+				}
+				if g.Chance(1, 5) {
+					// a foreign buffer (multiples of 32 that are not a class size of the aligned allocator are
+					// outside its contract — c20_aligned_foreign_cap_counterexample — and not generated)
+					fc := g.PickInt(0, 0, 0, 1, 5, 17, 31, 33, 100, 32, 64, 128, 1024, 32768, 32769, 40000, 70000)
+					fl := 0
+					if fc > 0 && g.Chance(3, 4) {
+						fl = g.PickInt(0, 1, fc/2, fc, fc)
+						if fl > 300 {
+							fl = g.PickInt(fc, 300, 17)
+						}
+					}
+					g.P("G %d %d %d", h, fc, fl)
+					live[h] = fl
+					if fl > 0 && g.Chance(3, 4) {
+						g.P("W %d %d", h, g.Intn(256))
+					}
+					continue
 				}
 				sz := pickSize(g, c)
 				g.P("M %d %d", h, sz)
@@ -464,6 +486,42 @@ func exec(e *lp.Exec) {
 			e.Count("ops", "malloc")
 			e.Count("malloc_origin", map[bool]string{true: "fresh", false: "reused"}[org == "fresh"])
 			e.P("%s", show(p))
+		case "G":
+			if len(args) < 3 {
+				bad()
+				continue
+			}
+			h, _ := strconv.Atoi(args[0])
+			fc, _ := strconv.Atoi(args[1])
+			fl, _ := strconv.Atoi(args[2])
+			okCap := s.kind != "aligned" || fc == 0 || fc%32 != 0 || fc > 32768 || fc&(fc-1) == 0
+			if _, dup := s.h[h]; dup || s.poisoned || fl > fc || fc < 0 || fl < 0 || fc > 1<<20 || !okCap {
+				e.P("> G %d %d %d", h, fc, fl)
+				e.P("rejected")
+				continue
+			}
+			var fb []byte
+			if fc > 0 {
+				fb = make([]byte, fl, fc)
+			}
+			hs := &hstate{p: &fb}
+			s.h[h] = hs
+			s.settle(hs)
+			e.P("> G %d %d %d", h, fc, fl)
+			s.checkOthers(e, h, "foreign")
+			fmt.Fprintf(&s.key, "G%s,", bucket(fc))
+			e.Count("ops", "foreign")
+			switch {
+			case fc == 0:
+				e.Count("foreign_cap", "zero")
+			case fc > 32768:
+				e.Count("foreign_cap", "above-threshold")
+			case fc%32 != 0:
+				e.Count("foreign_cap", "not-aligned")
+			default:
+				e.Count("foreign_cap", "class-size")
+			}
+			e.P("%s", show(&fb))
 		case "W":
 			if len(args) < 2 {
 				bad()
